@@ -687,6 +687,84 @@ theorem newNode_db {c : Core} (hi : Inv c) {evs : List Ev} {c' : Core} (h : newN
       · exact prelude_db c e he
       · exact replayBlocks_db hi0 hr e he
 
+/-! ### torn WAL records -/
+
+theorem apply_no_torn {d : Disk} {e : Ev} (h : Rec.torn ∉ d.wal) : Rec.torn ∉ (apply d e).wal := by
+  cases e <;> first
+    | exact h
+    | (show Rec.torn ∉ d.wal ++ [_]; simp [h])
+
+theorem applyAll_no_torn {d : Disk} {l : List Ev} (h : Rec.torn ∉ d.wal) : Rec.torn ∉ (applyAll d l).wal := by
+  induction l generalizing d with
+  | nil => exact h
+  | cons e l ih => rw [applyAll_cons]; exact ih (apply_no_torn h)
+
+theorem reach_no_torn {d : Disk} (h : Reach d) : Rec.torn ∉ d.wal := by
+  induction h with
+  | genesis => simp [Disk.empty]
+  | kill d evs _ _ ih => exact applyAll_no_torn ih
+
+theorem afterMark_subset {w seg : List Rec} {n : Nat} (h : afterMark w n = some seg) :
+    ∀ r ∈ seg, r ∈ w := by
+  induction w with
+  | nil => simp [afterMark] at h
+  | cons a w ih =>
+    unfold afterMark at h
+    split at h
+    · cases h; intro r hr; exact List.mem_cons_of_mem _ hr
+    · intro r hr; exact List.mem_cons_of_mem _ (ih h r hr)
+
+theorem noTornInside_of_not_mem : ∀ {seg : List Rec}, Rec.torn ∉ seg → noTornInside seg = true
+  | [], _ => rfl
+  | [_], _ => rfl
+  | a :: b :: rest, h => by
+    have hrest : Rec.torn ∉ b :: rest := fun hm => h (List.mem_cons_of_mem _ hm)
+    have ha : a ≠ Rec.torn := fun he => h (by simp [he])
+    cases a <;> first
+      | exact absurd rfl ha
+      | (simp only [noTornInside]; exact noTornInside_of_not_mem hrest)
+
+/-- a world without partial lines in its WAL starts -/
+theorem startOK_of_no_torn {d : Disk} (h : Rec.torn ∉ d.wal) : startOK d = true := by
+  unfold startOK
+  split
+  · rfl
+  · rename_i seg hs
+    exact noTornInside_of_not_mem (fun hm => h (afterMark_subset hs _ hm))
+
+theorem noTornInside_tail : ∀ {seg : List Rec}, Rec.torn ∉ seg → noTornInside (seg ++ [Rec.torn]) = true
+  | [], _ => rfl
+  | [a], h => by
+    have ha : a ≠ Rec.torn := fun he => h (by simp [he])
+    cases a <;> first | exact absurd rfl ha | rfl
+  | a :: b :: rest, h => by
+    have hrest : Rec.torn ∉ b :: rest := fun hm => h (List.mem_cons_of_mem _ hm)
+    have ha : a ≠ Rec.torn := fun he => h (by simp [he])
+    have ih := noTornInside_tail hrest
+    cases a <;> first
+      | exact absurd rfl ha
+      | (simpa only [List.cons_append, noTornInside] using ih)
+
+theorem afterMark_append_torn {w : List Rec} {n : Nat} :
+    afterMark (w ++ [Rec.torn]) n = (afterMark w n).map (· ++ [Rec.torn]) := by
+  induction w with
+  | nil => simp [afterMark]
+  | cons a w ih =>
+    simp only [List.cons_append, afterMark]
+    split
+    · rfl
+    · exact ih
+
+/-- the partial line alone does no harm: the world left by a kill inside a write still starts -/
+theorem startOK_tornKill {d : Disk} (h : Rec.torn ∉ d.wal) : startOK (tornKill d) = true := by
+  unfold startOK tornKill
+  simp only [afterMark_append_torn]
+  cases hs : afterMark d.wal (d.st + 1) with
+  | none => rfl
+  | some seg =>
+    simp only [Option.map_some]
+    exact noTornInside_tail (fun hm => h (afterMark_subset hs _ hm))
+
 /-! ### the case table is exhaustive for every input -/
 
 theorem replayLoop_not_uncovered (c : Core) : ∀ fuel i last cur first,
